@@ -56,7 +56,8 @@ def run_fuzz(chk, target, runs, seeds_kind=None, max_len=16384, jobs=16):
             key = 'fuzz:hang'
         else:
             key = 'fuzz:crash'
-        keep = os.path.join(build.VERIF, 'evidence', 'replay', chk.prop)
+        from . import check as _check
+        keep = os.path.join(_check.EVID, 'replay', chk.prop)          # honours VERIF_EVIDENCE_DIR
         os.makedirs(keep, exist_ok=True)
         dst = os.path.join(keep, os.path.basename(c))
         shutil.copy(c, dst)
